@@ -85,6 +85,10 @@ class ReportTargetPortGroups(SCSICommand):
         #  get the data after the return_data_length
         _data = data[4 : scsi_ba_to_int(data[:4]) + 4]
 
+        # the descriptors are walked through by position: cutting what was decoded
+        # off the front copies the rest of the data once for every descriptor
+        _pos = 0
+
         # Check whether length only or extended header parameter data format
         if len(_data) >= 4:
             _r = {}
@@ -95,24 +99,29 @@ class ReportTargetPortGroups(SCSICommand):
                 == DATA_FORMAT_TYPE.EXTENDED_HEADER_PARAMETER_DATA_FORMAT
             ):
                 result["implicit_transition_time"] = _r["implicit_transition_time"]
-                _data = _data[4:]
+                _pos = 4
         else:
             result[
                 "format_type"
             ] = DATA_FORMAT_TYPE.LENGTH_ONLY_HEADER_PARAMETER_DATA_FORMAT
 
         _tpg_descriptors = []  # Target Port Group Descriptors
-        while len(_data):
+        while _pos < len(_data):
             _tpgd = {}  # Target Port Group Descriptor
-            decode_bits(_data, cls._tpgd_bits, _tpgd)
-            _data = _data[8:]
+            decode_bits(_data[_pos : _pos + 8], cls._tpgd_bits, _tpgd)
+            _pos += 8
 
             _tp_descriptors = []  # Target Port Desxcriptors
-            while len(_data) and len(_tp_descriptors) < _tpgd["target_port_count"]:
+            while (
+                _pos < len(_data)
+                and len(_tp_descriptors) < _tpgd["target_port_count"]
+            ):
                 _tpd = {}  # Target Port Desxcriptor
-                _tpd["relative_target_port_id"] = scsi_ba_to_int(_data[2:4])
+                _tpd["relative_target_port_id"] = scsi_ba_to_int(
+                    _data[_pos + 2 : _pos + 4]
+                )
                 _tp_descriptors.append(_tpd)
-                _data = _data[4:]
+                _pos += 4
 
             _tpgd["target_ports"] = _tp_descriptors
             _tpg_descriptors.append(_tpgd)
